@@ -107,8 +107,16 @@ fn insert_vs_enc<const NQ: usize, const NR: usize>(bq: usize, br: usize) {
         }
     }
     let e = enc::<NQ, NR>(mask2);
-    chk!("post_state_is_canonical_encoding", same_state::<NQ>(&f, &e));
-    chk!("len_is_number_of_classes", f.len() == mask2.count_ones() as usize);
+    // the Ok and the Err outcome carry different obligations (C13 exact-set semantics vs. C12 "failed insert changes nothing")
+    let same = same_state::<NQ>(&f, &e);
+    let len_ok = f.len() == mask2.count_ones() as usize;
+    if r.is_ok() {
+        chk!("post_state_is_canonical_encoding", same);
+        chk!("len_is_number_of_classes", len_ok);
+    } else {
+        chk!("insert_err_state_unchanged", same);
+        chk!("insert_err_len_unchanged", len_ok);
+    }
     chk!("is_empty_iff_len_zero", f.is_empty() == (mask2 == 0));
     chk!("blocks_unchanged", f.verif_table_blocks() == blocks0 && f.verif_table_len() >= NQ);
     cov!("err_full", r.is_err());
@@ -205,8 +213,15 @@ fn union_vs_enc<const NQ: usize, const NR: usize>(bq: usize, br: usize) {
     let fits = mu.count_ones() as usize <= NQ;
     chk!("union_ok_iff_fits", r.is_ok() == fits);
     let expect = if r.is_ok() { mu } else { ma };
-    chk!("union_state_is_encoding_of_union_or_unchanged", same_state::<NQ>(&a, &enc::<NQ, NR>(expect)));
-    chk!("union_len", a.len() == expect.count_ones() as usize);
+    let same = same_state::<NQ>(&a, &enc::<NQ, NR>(expect));
+    let len_ok = a.len() == expect.count_ones() as usize;
+    if r.is_ok() {
+        chk!("union_ok_state_is_encoding_of_union", same);
+        chk!("union_ok_len", len_ok);
+    } else {
+        chk!("union_err_state_unchanged", same);
+        chk!("union_err_len_unchanged", len_ok);
+    }
     chk!("union_other_unchanged", same_state::<NQ>(&b, &enc::<NQ, NR>(mb)) && b.len() == mb.count_ones() as usize);
     chk!("union_blocks_unchanged", a.verif_table_blocks() == blocks0);
     cov!("union_err", r.is_err());
